@@ -15,6 +15,8 @@ package dtls
 //    peer repeats stale flights / garbage; zero-virtual-time livelocks are violations.
 
 import (
+	"bytes"
+	"context"
 	"fmt"
 	"sort"
 	"strings"
@@ -253,6 +255,81 @@ func vfC17Silence(res *vfResult, c vfC17Case) {
 				res.Violate(fmt.Sprintf("C17:retransmitted-data-restored-the-interval:%s:%s", vfVerClass(c.V), c.Target),
 					fmt.Sprintf("%s: only retransmitted (already processed) data arrived at %v, yet the back-off was undone (t0=%v): %s", c.String(), t1, t0, bad),
 					map[string]any{"case": c.String(), "bursts": postB})
+			}
+		}
+		p.Close()
+		<-done
+		synctest.Wait()
+
+		return
+	}
+	if c.Mode == "restore-partial" {
+		// after two retransmissions only the first datagram of the peer's withheld next flight arrives: new data,
+		// but not enough of it to move on. The interval is restored all the same: the back-off starts over.
+		t1 := 3*c.Interval + c.Interval/2
+		time.Sleep(t1)
+		synctest.Wait()
+		mu.Lock()
+		h := held
+		held = nil
+		sa := silenceAt
+		isSilent := silent
+		mu.Unlock()
+		var first []heldDg
+		for _, d := range h {
+			if d.at < sa+c.Interval {
+				first = append(first, d)
+			}
+		}
+		// the delivered datagram must hand the state machine something new: a complete plaintext handshake
+		// message (a lone fragment of a larger message is buffered without any event; protected DTLS 1.3
+		// datagrams cannot be classified from outside, so the mode is limited to what can be told apart)
+		whole := false
+		if len(first) > 0 {
+			if recs, ok := vfParseDatagram(first[0].data, 0); ok {
+				for _, rc := range recs {
+					if !rc.Unified && rc.Type == 22 && rc.Epoch == 0 {
+						if hs, _, ok := vfParseHS(rc.Body); ok && hs.FragOff == 0 && hs.FragLen == hs.Length {
+							whole = true
+						}
+					}
+				}
+			}
+		}
+		if !isSilent || len(first) < 2 || !whole || vfIs13(target.Conn) {
+			res.Count("restore_partial_not_applicable", 1)
+			p.Close()
+			<-done
+			synctest.Wait()
+
+			return
+		}
+		n.Deliver(string(target.EP.addr), first[0].data, vfAddrOf(peer.Name))
+		synctest.Wait()
+		time.Sleep(2 * time.Minute)
+		synctest.Wait()
+		_, postB := vfBurstsOf(n, target.Name, string(target.EP.addr), sa, true)
+		var timer []vfBurst
+		for _, b := range postB {
+			if b.At > t1 {
+				timer = append(timer, b)
+			}
+		}
+		completed := false
+		select {
+		case <-done:
+			completed = true
+		default:
+		}
+		if len(timer) < 2 || completed {
+			res.Count("restore_partial_not_applicable", 1)
+		} else {
+			res.Count("restore_partial_observed", 1)
+			res.NonTrivial("restore-partial/" + c.String())
+			if gap := timer[1].At - timer[0].At; gap > 2*c.Interval {
+				res.Violate(fmt.Sprintf("C17:interval-not-restored:restore-partial:%s:%s", vfVerClass(c.V), c.Target),
+					fmt.Sprintf("%s: new (not retransmitted) data arrived at %v after two retransmissions; the next two timer retransmissions came at %v and %v, %v apart — the back-off was not started over (interval %v)",
+						c.String(), t1, timer[0].At, timer[1].At, gap, c.Interval), map[string]any{"case": c.String(), "bursts": postB})
 			}
 		}
 		p.Close()
@@ -651,6 +728,93 @@ func vfC02RunCounted(v vfVariant, mask vfMask) vfCountedOutcome {
 	return run(mask, true)
 }
 
+// vfC17PostHandshakeBusy: a DTLS 1.3 KeyUpdate whose every transmission is lost, while the application keeps writing.
+// The writes are events for the state machine too; they must not postpone the KeyUpdate's retransmission schedule.
+func vfC17PostHandshakeBusy(res *vfResult, c vfC17Case) {
+	n := vfNewNet()
+	n.stormCap = 0
+	co, so := vfC17Opts(c)
+	p, err := vfNewPair(n, co, so)
+	res.Eval(1)
+	if err != nil {
+		return
+	}
+	if ce, se := p.Handshake(time.Minute); ce != nil || se != nil || !vfIs13(p.C.Conn) {
+		res.Count("busy_not_applicable", 1)
+		p.Close()
+		synctest.Wait()
+
+		return
+	}
+	p.C.StartPump()
+	p.S.StartPump()
+	time.Sleep(5 * time.Second) // ticket flights are acknowledged
+	synctest.Wait()
+	target, _ := vfSideOf(p, c.Target)
+	n.SetOnSend(func(n *vfNet, w *vfWire) {
+		if w.From == target.Name {
+			return // dark towards the peer: observed only
+		}
+		n.Deliver(w.Dst, w.Data, vfAddrOf(w.From))
+	})
+	mark := n.LogLen()
+	t0 := n.Now()
+	payload := bytes.Repeat([]byte{0x5a}, 200) // far from the size of a KeyUpdate record
+	var wg sync.WaitGroup
+	wg.Add(2)
+	go func() {
+		defer wg.Done()
+		ctx, cancel := context.WithTimeout(context.Background(), 16*c.Interval)
+		defer cancel()
+		_ = target.Conn.UpdateKeys(ctx, KeyUpdateOptions{})
+	}()
+	go func() {
+		defer wg.Done()
+		for i := 0; i < 300; i++ {
+			time.Sleep(c.Interval / 5)
+			if _, err := target.Conn.Write(payload); err != nil {
+				return
+			}
+			if n.Now()-t0 > 15*c.Interval {
+				return
+			}
+		}
+	}()
+	wg.Wait()
+	synctest.Wait()
+	var ku []time.Duration
+	for _, w := range n.LogSince(mark) {
+		if !w.Deliver && w.From == target.Name && len(w.Data) < 100 {
+			ku = append(ku, w.VTime-t0)
+		}
+	}
+	want := []time.Duration{0, c.Interval, 3 * c.Interval, 7 * c.Interval}
+	if !c.Backoff {
+		want = []time.Duration{0, c.Interval, 2 * c.Interval, 3 * c.Interval}
+	}
+	res.NonTrivial("busy/" + c.String())
+	res.Count("busy_observed", 1)
+	bad := ""
+	for i, wnt := range want {
+		if i >= len(ku) {
+			bad = fmt.Sprintf("transmission %d of the KeyUpdate is missing (law: +%v)", i+1, wnt)
+
+			break
+		}
+		if ku[i] != wnt {
+			bad = fmt.Sprintf("transmission %d of the KeyUpdate at +%v, the law prescribes +%v", i+1, ku[i], wnt)
+
+			break
+		}
+	}
+	if bad != "" {
+		res.Violate(fmt.Sprintf("C17:post-handshake-schedule-under-writes:%s:backoff=%v", c.Target, c.Backoff),
+			fmt.Sprintf("%s: while the application wrote every %v and nothing arrived, %s; small datagrams seen at %v", c.String(), c.Interval/5, bad, ku), map[string]any{"case": c.String()})
+	}
+	p.Close()
+	synctest.Wait()
+}
+
 func TestVF_C17(t *testing.T) {
 	vfGetPKI()
 	res := vfNewResult("C17", "exact virtual-time schedules: for every handshake variant x role x number of datagrams received before total "+
@@ -680,9 +844,14 @@ func TestVF_C17(t *testing.T) {
 					cases = append(cases, vfC17Case{V: v, Target: tgt, Cut: cut, Interval: time.Second, Backoff: true, Mode: "restore"})
 					cases = append(cases, vfC17Case{V: v, Target: tgt, Cut: cut, Interval: time.Second, Backoff: true, Mode: "restore-dup"})
 					cases = append(cases, vfC17Case{V: v, Target: tgt, Cut: cut, Interval: time.Second, Backoff: true, Mode: "stale-only"})
+					cases = append(cases, vfC17Case{V: v, Target: tgt, Cut: cut, Interval: time.Second, Backoff: true, Mode: "restore-partial"})
 				}
 			}
 			cases = append(cases, vfC17Case{V: v, Target: tgt, Interval: time.Second, Backoff: true, Mode: "hostile"})
+			if v.Cfg.Is13() || v.Cfg.SVer == "dual" || v.Cfg.SVer == "13" {
+				cases = append(cases, vfC17Case{V: v, Target: tgt, Interval: 100 * time.Millisecond, Backoff: true, Mode: "posthandshake-busy"})
+				cases = append(cases, vfC17Case{V: v, Target: tgt, Interval: 200 * time.Millisecond, Backoff: false, Mode: "posthandshake-busy"})
+			}
 		}
 	}
 	if vfEnv().Replay != "" {
@@ -704,7 +873,9 @@ func TestVF_C17(t *testing.T) {
 		}
 		for _, c := range sel {
 			synctest.Test(t, func(t *testing.T) {
-				if c.Mode == "hostile" {
+				if c.Mode == "posthandshake-busy" {
+					vfC17PostHandshakeBusy(res, c)
+				} else if c.Mode == "hostile" {
 					vfC17Hostile(res, c)
 				} else {
 					vfC17Silence(res, c)
@@ -720,6 +891,8 @@ func TestVF_C17(t *testing.T) {
 	vfCaseName = func(i int) string { return cases[i].String() }
 	vfBubbles(t, len(cases), func(t *testing.T, i int) {
 		switch cases[i].Mode {
+		case "posthandshake-busy":
+			vfC17PostHandshakeBusy(res, cases[i])
 		case "hostile":
 			vfC17Hostile(res, cases[i])
 		default:
@@ -735,6 +908,8 @@ func TestVF_C17(t *testing.T) {
 	res.Floor("silence/completed", 4)
 	res.Floor("restore_observed", 5)
 	res.Floor("stale_only_observed", 5)
+	res.Floor("restore_partial_observed", 3)
+	res.Floor("busy_observed", 4)
 	res.Floor("final_flight_resent_on_peer_retransmission", 2)
 	_ = sort.Strings
 	res.Finish(t)
